@@ -1,6 +1,6 @@
 """Classes instantiated by the C08 'instantiate twice' runner (tie/impl/c08_inst.py). Every instance keeps its
 constructor arguments as attributes of the same name so that the runner can walk the built object tree."""
-from typing import List, Optional
+from typing import Any, List, Optional
 
 from jsonargparse import lazy_instance
 
@@ -47,6 +47,14 @@ class Pair(Base):
 class Bag(Base):
     def __init__(self, elems: List[Base], n: int = 0):
         self.elems = elems
+        self.n = n
+
+
+class Holder(Base):
+    """a lazy_instance signature default on a parameter annotated Any"""
+
+    def __init__(self, extra: Any = lazy_instance(Leaf, x=4), n: int = 0):
+        self.extra = extra
         self.n = n
 
 
